@@ -19,6 +19,7 @@ structure ChanDecl where
   kind : PKind
   cx : Nat
   adapter : Bool
+  esize : Nat := 1      -- element size in bytes (`elem_layout().size()` of the payload's vtable)
 deriving Repr
 
 inductive CInstr
@@ -45,6 +46,7 @@ structure CScript where
 /-- the scripted peer of one channel (resolution state of chan_host.rs) -/
 structure Mock where
   cx : Nat
+  esize : Nat := 1              -- element size of the channel's payload (bytes)
   peerReady : Nat := 0
   peerDropped : Bool := false
   peerWrote : Bool := false
@@ -72,7 +74,7 @@ inductive Ask
 /-- the first answer-consuming built-in among the events of a (dummy) step -/
 def firstAsk : List Ev → Option Ask
   | [] => none
-  | .ch .swrite [_, n, _] :: _ | .ch .sread [_, n, _] :: _ => some (.copy n)
+  | .ch .swrite [_, n, _, _] :: _ | .ch .sread [_, n, _, _] :: _ => some (.copy n)
   | .ch .fwrite [_, _] :: _ | .ch .fread [_, _] :: _ => some (.copy 1)
   | .ch .scw [_, _] :: _ | .ch .scr [_, _] :: _ | .ch .fcw [_, _] :: _ | .ch .fcr [_, _] :: _ => some .cancel
   | _ :: es => firstAsk es
@@ -125,8 +127,8 @@ def CSys.runLabel (s : CSys) (c : Nat) (mk : Nat → CLabel) : CSys :=
       | some a => m.answer cs.h a
       | none => 0
     match cs.step (mk ans) with
-    | .ok cs' evs => (s.setChan c (cs', m.after cs.h ask ans)).emit evs
-    | .panic _ evs => { (s.emit (evs ++ [Ev.panic])) with panicked := true }
+    | .ok cs' evs => (s.setChan c (cs', m.after cs.h ask ans)).emit (evs.map (Ev.scaleOff m.esize))
+    | .panic _ evs => { (s.emit (evs.map (Ev.scaleOff m.esize) ++ [Ev.panic])) with panicked := true }
 
 def CSys.chan? (s : CSys) (c : Nat) : Option ChanSys := (s.chans[c]?).map (·.1)
 
@@ -309,8 +311,8 @@ def drainAll : Nat → CSys → CSys
 
 def CSys.init (sc : CScript) (version : Nat) : CSys :=
   { chans := sc.decls.mapIdx fun i d =>
-      (⟨{ c := i, fut := d.fut, gw := d.gw, kind := d.kind, adapter := d.adapter },
-        { e := { fut := d.fut, writer := d.gw } }, ⟨some ⟨1, version⟩, []⟩⟩, { cx := d.cx }),
+      (⟨{ c := i, fut := d.fut, gw := d.gw, kind := d.kind, adapter := d.adapter, esize := d.esize },
+        { e := { fut := d.fut, writer := d.gw } }, ⟨some ⟨1, version⟩, []⟩⟩, { cx := d.cx, esize := d.esize }),
     cur := some ⟨1, version⟩ }
 
 /-- predicted trace of a script; `none` for the `export` mode (real executor: C22's model) -/
